@@ -8,7 +8,7 @@ multi-nucleotide merge; (R3) insertions are kept out of depth by producer and co
 eligibility tests dominate parsing and the region test is an interval-overlap predicate; (R5)
 observation layout (mapping quality, binned base quality) and monotone binning; (R6) substitutions
 outside the RefSeq-mapped part fold into the reference count, inside (both end points) they stay.
-Not decided: equality with htslib's pileup on real files; the phase record; long-read remapping.
+Not decided: equality with htslib's pileup on real files; order independence across reads; long-read remapping.
 """
 
 import ast
@@ -127,6 +127,46 @@ def r1_r2_r5(repo, res):
             res.ob("C06.R5", f, f, lay_ok, expected="observation = (binned mapping quality, binned base quality of that base)",
                    found="ok" if lay_ok else detail, clause="each observation keeps its read's mapping quality and (binned) base quality",
                    key=f"layout:{name}")
+
+
+def r7_phase(repo, res):
+    f = repo.func("sam::Sample._parse_read")
+    for k, name in OPS.items():
+        if k == 5:
+            continue
+        cigar, seq, qual = sample_read(k)
+        want_pos, _ = expected_depth(k)
+        ph = {p: i for i, p in enumerate(range(START - 2, START + 12))}
+        try:
+            kind, val, norm, muts, me, ev = fold_parse_read(repo, cigar, seq, qual, phaseable=ph)
+        except Unfoldable as e:
+            res.err("C06.R7", f"_parse_read outside folding language: {e}")
+            return
+        per, ins = observations(norm, muts)
+        rec = me.phases.get("r1", {})
+        shown = {}
+        for p, l in per.items():
+            shown.setdefault(p, set()).update(x for x, _ in l)
+        for p, o, _ in ins:
+            shown.setdefault(p, set()).add(o)
+        for (p, o), l in muts.items():
+            if str(o).startswith("del") or o == "-":
+                pass
+        bad = []
+        inside_del = set(range(START + 3, START + 5)) if k == 2 else set()
+        for p in want_pos:
+            if p in inside_del:
+                continue
+            r_ = rec.get(p)
+            ok_p = r_ is not None and (r_ in shown.get(p, set()) or (k == 2 and p == START + 2 and str(r_).startswith("del")))
+            if not ok_p:
+                bad.append(f"{p}: recorded {r_!r}, read shows {sorted(shown.get(p, set()))}")
+        extra = [p for p in rec if p not in want_pos]
+        res.ob("C06.R7", f, f, kind != "raise" and not bad and not extra,
+               expected=f"op {name}: the fragment's phase record holds, for every variant site the read spans, an allele the read shows there (and nothing elsewhere)",
+               found="ok" if not bad and not extra else "; ".join(bad[:3]) + (f"; records outside the read: {extra}" if extra else ""),
+               clause="the per-fragment phase record states, for every catalogued variant site a fragment covers, an allele that one of the fragment's reads shows there",
+               key=f"phase-record:{name}")
 
 
 def r2_multi(repo, res):
@@ -364,6 +404,7 @@ def r6(repo, res):
 def run(repo, res):
     r1_r2_r5(repo, res)
     r1_symbolic(repo, res)
+    r7_phase(repo, res)
     r2_multi(repo, res)
     r1_regions(repo, res)
     r3(repo, res)
@@ -414,6 +455,11 @@ MUTANTS = [
          new="        bounds = range(min(self.gene.chr_to_ref), max(self.gene.chr_to_ref))\n        for (pos, mut), cov in muts.items():\n            if pos not in coverage:\n                coverage[pos] = {}\n            if pos not in bounds and mut[:3] != \"ins\":"),
     dict(name="R6 out-of-gene substitutions kept", module="sam", expect="C06.R6",
          old='                mut = "_"  # ignore mutations outside of the region of interest', new="                pass"),
+    dict(name="R7 phase record of a mismatch says reference", module="sam", expect="C06.R7",
+         old="                        if start + i in self.phaseable:\n                            phase[start + i] = mut[1]\n                    else:",
+         new="                        if start + i in self.phaseable:\n                            phase[start + i] = \"_\"\n                    else:"),
+    dict(name="R7 phase record keyed by the query index", module="sam", expect="C06.R7",
+         old="                        if start + i in self.phaseable:\n                            phase[start + i] = \"_\"", new="                        if start + i in self.phaseable:\n                            phase[s_start + i] = \"_\""),
     # benign
     dict(name="benign: op chain rewritten", module="sam", kind="benign",
          old="            elif op in [0, 7, 8]:  # M, X and =", new="            elif op == 0 or op == 7 or op == 8:"),
